@@ -64,11 +64,16 @@ def find_function(tree, qualname):
     return node
 
 
-def load(relpath, rebind=None, transforms=(), sym=True, modname=None):
+def load(relpath, rebind=None, transforms=(), sym=True, modname=None, imports=None):
     """Execute the module at relpath in a fresh namespace and return it.
 
     sym=True rebinds math/isinstance/float/max/min/len/hash/id to their
-    symbolic-aware versions (symrt.BUILTIN_REBINDS)."""
+    symbolic-aware versions (symrt.BUILTIN_REBINDS).
+    imports: {module name: scratch namespace} - while the module body executes, `from <module>
+    import ..` resolves to these scratch copies, so that what runs at definition time (a decorator
+    imported from a shared module, a class-level constant) is the scratch copy as well."""
+    import sys
+    import types
     tree = parse(relpath)
     for tr in transforms:
         tree = tr.visit(tree) or tree
@@ -76,7 +81,24 @@ def load(relpath, rebind=None, transforms=(), sym=True, modname=None):
     code = compile(tree, os.path.join(REPO, relpath), "exec")
     name = modname or ("pyvc_scratch." + os.path.basename(relpath)[:-3])
     ns = {"__name__": name, "__builtins__": builtins.__dict__, "__file__": os.path.join(REPO, relpath)}
-    exec(code, ns)
+    saved = {}
+    try:
+        for mname, mns in (imports or {}).items():
+            importlib_mod = sys.modules.get(mname)
+            if importlib_mod is None:
+                __import__(mname)
+                importlib_mod = sys.modules.get(mname)
+            saved[mname] = importlib_mod
+            fake = types.ModuleType(mname)
+            fake.__dict__.update({k: v for k, v in mns.items() if k not in ("__name__", "__builtins__")})
+            sys.modules[mname] = fake
+        exec(code, ns)
+    finally:
+        for mname, mod in saved.items():
+            if mod is not None:
+                sys.modules[mname] = mod
+            else:
+                sys.modules.pop(mname, None)
     if sym:
         ns.update(BUILTIN_REBINDS)
         rebind_library_names(ns)
@@ -94,9 +116,10 @@ class Scratch:
         transforms = transforms or {}
         self.model = model
         self.common = load(COMMON, sym=sym, transforms=transforms.get(COMMON, ()))
-        self.wl = load(WL_COMMON, sym=sym, transforms=transforms.get(WL_COMMON, ()))
+        self.wl = load(WL_COMMON, sym=sym, transforms=transforms.get(WL_COMMON, ()), imports={"openskill.models.common": self.common})
         self.relpath = MODEL_FILES[model]
-        self.ns = load(self.relpath, sym=sym, transforms=transforms.get(self.relpath, ()))
+        self.ns = load(self.relpath, sym=sym, transforms=transforms.get(self.relpath, ()),
+                       imports={"openskill.models.common": self.common, "openskill.models.weng_lin.common": self.wl})
         # whatever a module imports from the two shared modules (by any name, including helpers
         # added later) is pointed at the scratch copy, so that rebinding reaches it
         self.sym = sym
